@@ -319,6 +319,169 @@ def conjunct_obligations(rep):
         rep.undecided(oid2, 'pysym', f'sufficient condition not established ({detail[:200]}): the decision rests on C08.filter.path.* up to its depth', function=fn2, clause=clause2, soft=True)
 
 
+# ------------------------------------------------------------------ set operations across integrations
+def union_obligations(rep):
+    """plan_union: both operands are planned as they are written (no flag of an operand is changed) and the step carries the operation and the
+    DISTINCT/ALL flag of this node. From the property: (a EXCEPT b) UNION c must evaluate a EXCEPT b with its own duplicate handling."""
+    from mindsdb_sql.parser.ast import Union, Except, Intersect, Select
+    from mindsdb_sql.planner.steps import UnionStep
+    QP = 'mindsdb_sql.planner.query_planner'
+    fn = f'{QP}:QueryPlanner.plan_union'
+    for K, opname in ((Union, 'union'), (Except, 'except'), (Intersect, 'intersect')):
+        for inner in (Union, Except, Intersect, Select):
+            def make_args(ex, K=K, inner=inner):
+                from mindsdb_sql.planner.query_planner import QueryPlanner
+                selfo = SymObj({QueryPlanner}, 'self', prov='param')
+                selfo.known_not_none = True
+                planned = []
+
+                def plan_select(ex_, a, k):
+                    st_ = SymObj(None, f'step{len(planned)}', prov='fresh')
+                    st_.known_not_none = True
+                    st_.fields['result'] = SymObj(None, f'result{len(planned)}', prov='fresh')
+                    planned.append((a[0], dict(getattr(a[0], 'fields', {}) or {}), st_))
+                    return st_
+                selfo.fields['plan_select'] = Stub(plan_select, 'plan_select')
+                added = []
+                pl = SymObj(None, 'plan', prov='param')
+                pl.known_not_none = True
+                pl.fields['add_step'] = Stub(lambda ex_, a, k: (added.append(a[0]), a[0])[1], 'add_step')
+                selfo.fields['plan'] = pl
+
+                def operand(name, cls):
+                    o = SymObj({cls}, name, prov='param')
+                    o.known_not_none = True
+                    o.copyable = True
+                    o.closed = True
+                    if cls is Select:
+                        o.fields.update(alias=None, parentheses=False, targets=ex.param_container([]), from_table=None, where=None, distinct=False)
+                    else:
+                        o.fields.update(alias=None, parentheses=False, unique=pysym.mk_bool(f'{name}.unique'), left=SymObj({Select}, f'{name}.left', prov='param'), right=SymObj({Select}, f'{name}.right', prov='param'))
+                    return o
+                q = SymObj({K}, 'query', prov='param')
+                q.known_not_none = True
+                l, r = operand('left', inner), operand('right', Select)
+                uq = pysym.mk_bool('query.unique')
+                q.fields.update(alias=None, parentheses=False, unique=uq, left=l, right=r)
+                ex.path_state.update(planned=planned, added=added, l=l, r=r, uq=uq, lfields=dict(l.fields), rfields=dict(r.fields))
+                return [selfo, q], {}
+
+            def post(ex, o, opname=opname):
+                if o.kind != 'return':
+                    return f'raises {getattr(o.value, "__name__", o.value)}'
+                st = o.state
+                planned, added = st['planned'], st['added']
+                if len(planned) != 2:
+                    return f'{len(planned)} operands planned'
+                for (got, gfields, _st), want, wfields, side in ((planned[0], st['l'], st['lfields'], 'left'), (planned[1], st['r'], st['rfields'], 'right')):
+                    if got is not want:
+                        if not isinstance(got, SymObj) or got.cls is not want.cls:
+                            return f'the {side} operand is replaced by {got!r}'
+                        diff = [k for k in wfields if gfields.get(k) is not wfields[k] and gfields.get(k) != wfields[k]]
+                        if diff == ['unique'] and side == 'left' and want.cls is not Select:
+                            # a changed DISTINCT/ALL flag of an operand is accepted iff it cannot change the result: bag semantics over all small bags,
+                            # for every valuation of the two flags that this path allows
+                            bad = _flag_change_unsound(ex, o, opname, want.cls.__name__.lower(), st['uq'], wfields['unique'], gfields.get('unique'))
+                            if bad:
+                                return bad
+                            continue
+                        if diff:
+                            return f'the {side} operand is planned with changed {diff}: a different query is evaluated'
+                    else:
+                        diff = [k for k in wfields if want.fields.get(k) is not wfields[k] and want.fields.get(k) != wfields[k]]
+                        if diff:
+                            return f'the {side} operand of the caller\'s tree is modified: {diff}'
+                if len(added) != 1 or not isinstance(added[0], SymObj) or added[0].cls is not UnionStep:
+                    return f'steps added: {added!r}'
+                f = added[0].fields
+                if f.get('left') is not planned[0][2].fields['result'] or f.get('right') is not planned[1][2].fields['result']:
+                    return 'the step does not combine the results of its two operands in order'
+                if f.get('operation') != opname:
+                    return f'operation {f.get("operation")!r}, expected {opname!r}'
+                u = f.get('unique')
+                if not (u is st['uq'] or (isinstance(u, SymVal) and u == st['uq'])):
+                    return f'unique flag of the step is {u!r}, not the flag of the node'
+                return None
+            v = pysym.verify(QP, 'QueryPlanner.plan_union', make_args, post)
+            oid = f'C08.union.{opname}.{inner.__name__.lower()}-operand'
+            clause = 'ensures both operands are planned unchanged, in order; UnionStep(left, right) = their results; operation = node class; unique = node.unique'
+            if v.status == PROVED:
+                rep.proved(oid, 'pysym', v.detail, function=fn, clause=clause, seconds=v.seconds)
+            elif v.status == FAILED:
+                rep.failed(oid, 'pysym', v.detail, function=fn, clause=clause, replay=replay_union())
+            else:
+                rep.undecided(oid, 'pysym', v.detail, function=fn, clause=clause)
+
+
+def _bag(op, unique, A, B):
+    from collections import Counter
+    A, B = Counter(A), Counter(B)
+    if op == 'union':
+        r = A + B
+    elif op == 'intersect':
+        r = A & B
+    else:
+        r = A - B if not unique else Counter({k: 1 for k in A if k not in B})
+    if unique:
+        r = Counter({k: 1 for k in r if r[k] > 0})
+    return +r
+
+
+def _flag_change_unsound(ex, o, outer, inner, uq, lu, new):
+    import z3
+    vals = []
+    for a in (True, False):
+        for b in (True, False):
+            cond = z3.And(uq.t == z3.BoolVal(a), lu.t == z3.BoolVal(b))
+            impossible, _ = ex.valid(z3.Not(cond), pc=o.pc)
+            if not impossible:
+                vals.append((a, b))
+    bags = [(), (1,), (1, 1), (2,), (1, 2), (1, 1, 2), (1, 2, 2)]
+    for a, b in vals:
+        if isinstance(new, SymVal):
+            nv = a if new == uq else (b if new == lu else None)
+            if nv is None:
+                return 'the DISTINCT/ALL flag of the left operand is replaced by an unrelated value'
+        else:
+            nv = bool(new)
+        if nv == b:
+            continue
+        for A in bags:
+            for B in bags:
+                for C in bags:
+                    if _bag(outer, a, _bag(inner, b, A, B), C) != _bag(outer, a, _bag(inner, nv, A, B), C):
+                        return (f'the left operand ({inner.upper()}{"" if b else " ALL"}) is planned as {inner.upper()}{"" if nv else " ALL"} under {outer.upper()}{"" if a else " ALL"}: '
+                                f'with a={list(A)}, b={list(B)}, c={list(C)} the results differ')
+    return None
+
+
+def replay_union():
+    """witness: chains of set operations over three integrations; each UnionStep must carry the flag/operation of the node it was planned from"""
+    from mindsdb_sql import parse_sql
+    from mindsdb_sql.parser.ast import Union, Except, Intersect
+    from mindsdb_sql.planner.query_planner import QueryPlanner
+    from mindsdb_sql.planner.steps import UnionStep
+    for sql in ('SELECT x FROM int1.a EXCEPT SELECT x FROM int2.b UNION SELECT x FROM int3.c', 'SELECT x FROM int1.a UNION SELECT x FROM int2.b UNION ALL SELECT x FROM int3.c',
+                'SELECT x FROM int1.a EXCEPT SELECT x FROM int2.b EXCEPT SELECT x FROM int3.c', 'SELECT x FROM int1.a UNION ALL SELECT x FROM int2.b INTERSECT SELECT x FROM int3.c'):
+        try:
+            q = parse_sql(sql)
+            want = []
+
+            def walk(n):
+                if isinstance(n, (Union, Except, Intersect)):
+                    walk(n.left)
+                    walk(n.right)
+                    want.append((type(n).__name__.lower(), bool(n.unique)))
+            walk(q)
+            p = QueryPlanner(q, integrations=['int1', 'int2', 'int3'], predictor_metadata=[], default_namespace='mindsdb').from_query()
+            got = [(s_.operation, bool(s_.unique)) for s_ in p.steps if isinstance(s_, UnionStep)]
+            if got != want:
+                return {'input': sql, 'dialect': 'mindsdb', 'fires': True, 'observed': f'set-operation steps {got}', 'expected': f'{want}'}
+        except Exception as e:
+            return {'input': sql, 'dialect': 'mindsdb', 'fires': False, 'observed': f'{type(e).__name__}: {e}'[:120]}
+    return {'input': 'set-operation chains', 'dialect': 'mindsdb', 'fires': False, 'observed': 'every UnionStep carries the flag and operation of its node'}
+
+
 # ------------------------------------------------------------------ systematic boolean paths above the pushed comparison (bounded by depth)
 T, F, U = 'T', 'F', 'U'
 
@@ -537,6 +700,7 @@ def check(rep, tier):
     limit_obligations(rep)
     context_obligations(rep)
     conjunct_obligations(rep)
+    union_obligations(rep)
     semijoin_obligations(rep)
     outer_obligation(rep)
     bounded(rep, tier)
